@@ -285,8 +285,103 @@ fn deep(ctx: &mut Ctx, per_shard: usize) {
     ctx.rng = rng;
 }
 
+/// The same rule table with Nones that do not come from a literal: a user function returning None, a symbol
+/// bound to None, the whole input being None, a None field of the input, an if-branch, a None inside a list.
+/// (Evaluated through a ruleset; the other operand is one value of every type.)
+fn table_other_sources(ctx: &mut Ctx) {
+    use crate::fixture::build;
+    use crate::instr::{FaultPlan, FnDesc, Kind};
+    let descs = vec![FnDesc { name: "n", cacheable: false, kind: Kind::N, suspend: 0 }, FnDesc { name: "cn", cacheable: true, kind: Kind::N, suspend: 0 }];
+    let mut symbols = BTreeMap::new();
+    symbols.insert("nil".to_string(), Value::None);
+    let sources: Vec<(&str, Expr, Value)> = vec![
+        ("user-function", Expr::func("n", Expr::value(1)), Value::Int(0)),
+        ("cacheable-user-function", Expr::func("cn", Expr::value(1)), Value::Int(0)),
+        ("symbol", Expr::symbol("nil"), Value::Int(0)),
+        ("whole-input", Expr::reff("facts"), Value::None),
+        ("input-field", Expr::reff("missing_value"), Value::Map([("missing_value".to_string(), Value::None)].into_iter().collect())),
+        ("if-branch", Expr::iif(Expr::value(true), Expr::none_value(), Expr::value(1)), Value::Int(0)),
+        ("list-element", Expr::index(Expr::Vec(vec![Expr::value(1), Expr::none_value()]), Index::from(1usize)), Value::Int(0)),
+        ("function-of-none", Expr::func("n", Expr::func("cn", Expr::none_value())), Value::Int(0)),
+    ];
+    let others = crate::c03::tuples();
+    let vnone = Want::Val(Value::None);
+    let vfalse = Want::Val(Value::Bool(false));
+    let vtrue = Want::Val(Value::Bool(true));
+    for (src, n, facts) in &sources {
+        let mut rules: Vec<(String, Expr)> = vec![];
+        let mut wants: Vec<Want> = vec![];
+        for (name, ctor) in UNARY.iter() {
+            rules.push((format!("{name}(None:{src})"), ctor(n.clone())));
+            wants.push(match *name {
+                "some" => vfalse.clone(),
+                "none" => vtrue.clone(),
+                _ => vnone.clone(),
+            });
+        }
+        for (name, ctor) in BINARY.iter() {
+            for (t, vals) in &others {
+                let v = &vals[0];
+                for (pos, e) in [("left", ctor(n.clone(), lit(v))), ("right", ctor(lit(v), n.clone())), ("both", ctor(n.clone(), n.clone()))] {
+                    let want = match (*name, pos) {
+                        ("add" | "sub" | "mult" | "div" | "rem" | "bitand" | "bitor" | "bitxor", _) => vnone.clone(),
+                        ("gt" | "gte" | "lt" | "lte" | "eq", _) => vfalse.clone(),
+                        ("neq", _) => vtrue.clone(),
+                        ("contains", "left" | "both") => vfalse.clone(),
+                        ("contains", _) => match v {
+                            Value::Vec(xs) => Want::Val(Value::Bool(xs.iter().any(|x| matches!(x, Value::None)))),
+                            _ => Want::TypeError,
+                        },
+                        ("and" | "or", "left" | "both") => Want::TypeError,
+                        ("and", _) => if matches!(v, Value::Bool(false)) { vfalse.clone() } else { Want::TypeError },
+                        ("or", _) => if matches!(v, Value::Bool(true)) { vtrue.clone() } else { Want::TypeError },
+                        _ => unreachable!(),
+                    };
+                    rules.push((format!("{name}({pos}:None:{src},{t})"), e));
+                    wants.push(want);
+                }
+            }
+        }
+        rules.push((format!("field(None:{src})"), Expr::index(n.clone(), Index::from("x"))));
+        wants.push(vnone.clone());
+        rules.push((format!("index(None:{src})"), Expr::index(n.clone(), Index::from(0usize))));
+        wants.push(vnone.clone());
+        rules.push((format!("if(None:{src})"), Expr::iif(n.clone(), Expr::value(1), Expr::value(2))));
+        wants.push(Want::TypeError);
+        // three-operator chains
+        rules.push((format!("chain a + none * b ({src})"), Expr::add(Expr::value(1), Expr::mult(n.clone(), Expr::value(2)))));
+        wants.push(vnone.clone());
+        rules.push((format!("chain none + (\"x\" * i1) is the type error of the inner operator ({src})"), Expr::add(n.clone(), Expr::mult(Expr::value("x".to_string()), Expr::value(1)))));
+        wants.push(Want::TypeError);
+        if !ctx.mine() {
+            continue;
+        }
+        let fx = build(&descs, &symbols, &rules, FaultPlan::default());
+        match fx.eval(facts, 1) {
+            Ok(res) => {
+                for (((name, e), want), (_, obs)) in rules.iter().zip(wants.iter()).zip(res.outcomes.iter()) {
+                    ctx.count();
+                    ctx.hit("rule:none-from-other-sources");
+                    ctx.hit(&format!("source:{src}"));
+                    ctx.nontrivial(fnv(name.as_bytes()));
+                    let ok = match (want, obs) {
+                        (Want::Val(w), Obs::Val(v)) => same(w, v),
+                        (Want::TypeError, Obs::Err { cls, .. }) => *cls == crate::refeval::cls::INVALID_TYPE,
+                        _ => false,
+                    };
+                    if !ok {
+                        ctx.violation(format!("C04 none-from-{src} {}", name.split('(').next().unwrap_or(name)), format!("{name}: expected {want:?}, observed {}", show_obs(obs)), json!({"rule": name, "expr": show_expr(e), "input": format!("{facts:?}")}));
+                    }
+                }
+            }
+            Err(p) => ctx.violation("C04 evaluation-failed", p, json!({"source": src})),
+        }
+    }
+}
+
 fn run(ctx: &mut Ctx) {
     table(ctx);
+    table_other_sources(ctx);
     deep(ctx, ctx.tier.of(300_000, 3_000_000));
 }
 
